@@ -62,4 +62,21 @@ __CPROVER_ensures(__CPROVER_return_value == 0 || __CPROVER_return_value == 1)
 __CPROVER_ensures(g_ev_n == __CPROVER_old(g_ev_n) + 1 && g_ev_v == __CPROVER_return_value && g_ev_ctx == ctx && g_ev_sig == sig && g_ev_msg == msghash32 && g_ev_pk == pubkey && g_ev_after_vc == g_vc_n)
 ;
 #endif
+#ifdef LOG_PUBKEY_CODEC
+/* secp256k1_ec_pubkey_parse / _serialize as logged pass-through targets for the opening codec (their spec: C03 units) */
+int g_pp_n, g_pp_v, g_ps_n, g_ps_v; const secp256k1_context *g_pp_ctx, *g_ps_ctx; const void *g_pp_pk, *g_ps_pk; const unsigned char *g_pp_in, *g_ps_out;
+size_t g_pp_len, g_ps_len_in; const size_t *g_ps_lenp; unsigned int g_ps_flags;
+int secp256k1_ec_pubkey_parse(const secp256k1_context* ctx, secp256k1_pubkey* pubkey, const unsigned char *input, size_t inputlen)
+__CPROVER_requires(ctx != NULL && __CPROVER_w_ok(pubkey, sizeof(*pubkey)) && __CPROVER_r_ok(input, inputlen))
+__CPROVER_assigns(*pubkey, g_pp_n, g_pp_v, g_pp_ctx, g_pp_pk, g_pp_in, g_pp_len)
+__CPROVER_ensures(__CPROVER_return_value == 0 || __CPROVER_return_value == 1)
+__CPROVER_ensures(g_pp_n == __CPROVER_old(g_pp_n) + 1 && g_pp_v == __CPROVER_return_value && g_pp_ctx == ctx && g_pp_pk == pubkey && g_pp_in == input && g_pp_len == inputlen)
+;
+int secp256k1_ec_pubkey_serialize(const secp256k1_context* ctx, unsigned char *output, size_t *outputlen, const secp256k1_pubkey* pubkey, unsigned int flags)
+__CPROVER_requires(ctx != NULL && __CPROVER_rw_ok(outputlen, sizeof(*outputlen)) && __CPROVER_w_ok(output, *outputlen) && __CPROVER_r_ok(pubkey, sizeof(*pubkey)))
+__CPROVER_assigns(*outputlen, __CPROVER_object_upto(output, *outputlen), g_ps_n, g_ps_v, g_ps_ctx, g_ps_pk, g_ps_out, g_ps_len_in, g_ps_lenp, g_ps_flags)
+__CPROVER_ensures(__CPROVER_return_value == 0 || __CPROVER_return_value == 1)
+__CPROVER_ensures(g_ps_n == __CPROVER_old(g_ps_n) + 1 && g_ps_v == __CPROVER_return_value && g_ps_ctx == ctx && g_ps_pk == pubkey && g_ps_out == output && g_ps_len_in == __CPROVER_old(*outputlen) && g_ps_flags == flags)
+;
+#endif
 #endif
